@@ -267,6 +267,9 @@ fn config() -> shuttle::Config {
 
 /// Explore all schedules of one environment with at most `bound` preemptions.
 pub fn explore(env: &EnvConfig, bound: usize) -> Exploration {
+    let _g = crate::common::watch_limit(&crate::common::current_property(), MAX_SECONDS_PER_EXPLORATION + 160, || {
+        serde_json::json!({"exploration": {"bound": bound, "chunks": env.chunks.len(), "bytes": env.chunks.iter().map(|c| c.len()).sum::<usize>(), "clamp": env.clamp, "stdout_cap": env.stdout_cap}}).to_string()
+    });
     let stats = Arc::new(Mutex::new(SchedStats::default()));
     let collected: Arc<Mutex<Collected>> = Arc::new(Mutex::new(Collected::default()));
     let sched = BoundedDfs::new(bound, stats.clone(), env.delay_bounded);
